@@ -284,6 +284,13 @@ def clone (b : Bag) : Bag × Bool :=
   let c : Bag := if b.isAlign then newAlign b.alphabet else newBag b.alphabet
   addAllStop { c with policy := b.policy } (pairs b)
 
+def firstLen (rows : List Row) : Int := match rows with | r :: _ => (r.seq.length : Int) | [] => -1
+
+/-- `seqBagToAlignment`: an error if the rows do not all have the same length -/
+def seqBagToAlignment (s : Bag) : Option Bag :=
+  if s.rows.any (fun r => (r.seq.length : Int) != firstLen s.rows) then none
+  else some { s with alphabet := (newAlign s.alphabet).alphabet, isAlign := true, length := firstLen s.rows }
+
 /-- `Sample` with the drawn permutation supplied: new object holding the first `nb` rows of the
 permutation (policy NONE); for an alignment the length is recomputed by `seqBagToAlignment` -/
 def sample (nb : Int) (perm : List Nat) (b : Bag) : Option Bag :=
@@ -291,10 +298,7 @@ def sample (nb : Int) (perm : List Nat) (b : Bag) : Option Bag :=
   else
     let chosen := (perm.take nb.toNat).filterMap fun i => b.rows[i]?
     let s := addAllIgnore (newBag b.alphabet) (chosen.map fun r => (r.name, r.seq))
-    if b.isAlign then
-      some { s with alphabet := (newAlign s.alphabet).alphabet, isAlign := true,
-                    length := match s.rows.getLast? with | some r => (r.seq.length : Int) | none => -1 }
-    else some s
+    if b.isAlign then seqBagToAlignment s else some s
 
 /-- `strings.Replace(s, old, new, -1)` on bytes (non-overlapping, left to right; `old = ""` is
 excluded by the generators) -/
